@@ -340,9 +340,9 @@ func runC12(b *fw.B) {
 func c12View(b *fw.B, k int) {
 	ctx := context.Background()
 	sc := scenario{Family: "gossip", Preset: "minimal", Validators: 64, ForkEpochs: [4]uint64{1, ff, ff, ff}, Participation: []float64{1}}
-	nVariants := 7
+	nVariants := 8
 	if !fw.Quick(b.Tier) {
-		nVariants = 8
+		nVariants = 9
 	}
 	variant := (b.Batch + k) % nVariants
 	switch variant {
@@ -353,6 +353,10 @@ func c12View(b *fw.B, k int) {
 	case 3:
 		sc.ForkEpochs = [4]uint64{ff, ff, ff, ff}
 	case 7:
+		sc.Family = "gossip-fewvalidators" // fewer validators than sync committee seats: validators sit at several positions, in different subcommittees
+		sc.Validators = 24
+		sc.ForkEpochs = [4]uint64{1, 2, ff, ff}
+	case 8:
 		sc.Family = "gossip-mainnet" // 32-slot epochs: the deneb window (previous epoch) is wider than the 32-slot range
 		sc.Preset = "mainnet"
 		sc.ForkEpochs = [4]uint64{1, 2, 3, 4}
@@ -380,9 +384,11 @@ func c12View(b *fw.B, k int) {
 		// after the second rotation current != next
 		spec.EPOCHS_PER_SYNC_COMMITTEE_PERIOD = 2
 		lastSlot = 6*spe - 1
-	case 7:
+	case 8:
 		lastSlot = 5*spe + 20
 	}
+	// in these views the first slot of every epoch from 2 on is empty: the finalized root is a block before the finalized epoch's start slot
+	gapAtEpochStart := variant == 1 || variant == 6 || variant == 7
 	c, err := sim.NewChain(spec, b.Rng, sim.GenesisOpts{Validators: sc.Validators, Eth1Creds: func(i int) bool { return i%2 == 0 }})
 	if err != nil {
 		b.Note("gossip view genesis: %v", err)
@@ -409,6 +415,9 @@ func c12View(b *fw.B, k int) {
 		g.genesis = root
 	}
 	plan := sim.Plan{Participation: 1, MaxAttSlotsBack: 1, SyncParticipation: 1, Blobs: 1}
+	if gapAtEpochStart {
+		plan.MaxAttSlotsBack = 2
+	}
 	for slot := uint64(1); slot <= lastSlot; slot++ {
 		if slot == spe+3 {
 			g.oldBranch, _ = c.Sibling()
@@ -418,6 +427,9 @@ func c12View(b *fw.B, k int) {
 		}
 		if slot%7 == 6 && slot != lastSlot {
 			continue // a gap slot now and then
+		}
+		if gapAtEpochStart && slot%spe == 0 && slot >= 2*spe {
+			continue
 		}
 		built, err := c.BuildBlock(slot, plan)
 		if err != nil {
@@ -610,6 +622,36 @@ func (g *g12) blockTopic() {
 		if g.judge("block", "honest-after-"+cr.name, slot, expAccept, run(honest)) == gossipval.ACCEPT {
 			g.b.Inc("honest_after_refused_accept")
 		}
+	}
+	// blocks at and before the finalized slot, built on the finalized chain itself: only "slot > finalized slot" is false
+	if fe := v.blocks[v.fin.Root]; fe != nil && v.fin.Epoch >= 1 {
+		finSlot := uint64(v.fin.Epoch) * c.Sp.SLOTS_PER_EPOCH
+		try := func(name string, parent *gEntry, s uint64, expect int) {
+			sib, err := c.Sibling()
+			if err != nil || parent == nil || uint64(parent.step.Slot()) >= s {
+				return
+			}
+			sib.Ref = parent.ref.Copy()
+			if sib.ReloadZrnt() != nil {
+				return
+			}
+			if ob, err := sib.BuildBlock(s, sim.Plan{Participation: 0}); err == nil {
+				if env := g.envelope(sib, ob.Signed); env != nil {
+					v.fresh()
+					v.setClock(slot, 100)
+					g.judge("block", name, s, expect, run(env))
+					if g.judge("block", "honest-after-"+name, slot, expAccept, run(honest)) == gossipval.ACCEPT {
+						g.b.Inc("honest_after_refused_accept")
+					}
+				}
+			}
+		}
+		if uint64(fe.step.Slot()) < finSlot {
+			g.b.Inc("views_with_finalized_root_before_the_finalized_slot")
+			try("late-block-at-the-finalized-slot-on-the-finalized-root", fe, finSlot, expIgnore)
+		}
+		try("late-block-one-slot-after-the-finalized-slot", fe, finSlot+1, expAccept)
+		try("late-block-before-the-finalized-slot", v.blocks[fe.parent], uint64(fe.step.Slot()), expRefuse)
 	}
 	// an honest block on the live fork (other parent, maybe other proposer), and two slots later after a gap
 	if g.liveForkTip != (common.Root{}) {
@@ -1278,6 +1320,7 @@ func (g *g12) syncTopics() {
 				v.setClock(slot, 100)
 				g.judge("sync_message", "honest", slot, expAccept, run(honest, subnet))
 				g.judge("sync_message", "honest-same-validator-other-subnet", slot, expAccept, run(honest, sub))
+				g.b.Inc("sync_members_with_seats_in_several_subcommittees")
 				break
 			}
 		}
